@@ -251,7 +251,8 @@ def run_handshake(accepted, unix, fd_answer):
     return None
 
 
-SERVER_LINES = [b'OK 1234', b'OK', b'OK zz', b'REJECTED EXTERNAL', b'ERROR', b'DATA', b'DATA 3132', b'AGREE_UNIX_FD', b'BOGUS', b'\xff\xfe', b'OK 12 34']
+SERVER_LINES = [b'OK 1234', b'OK', b'OK zz', b'REJECTED EXTERNAL', b'ERROR', b'DATA', b'DATA 3132', b'AGREE_UNIX_FD', b'BOGUS', b'\xff\xfe', b'OK 12 34',
+                b'\xffOK 1234', b'AGREE_UNIX_FD\xff', b'\x80REJECTED EXTERNAL']
 
 
 def run_lines(lines, unix):
@@ -359,7 +360,7 @@ def replay(function, clause, model):
 def run_bounded(tier, seed):
     n, f, inp = bounded(tier, seed)
     return {'tool': 'handshakes against a reference server (every subset of accepted mechanisms x UNIX/non-UNIX x both negotiation answers) and server line sequences through the real ClientAuthenticator',
-            'bound': 'all 8 mechanism subsets x 3 transport cases; all line sequences of length <= %d over an 11/8-line alphabet x 2 transports; random length 4..9' % (4 if tier == 'thorough' else 3),
+            'bound': 'all 8 mechanism subsets x 3 transport cases; all line sequences of length <= %d over a 14/8-line alphabet x 2 transports; random length 4..9' % (4 if tier == 'thorough' else 3),
             'evaluations': n, 'failures': [] if not f else [{'function': 'txdbus.authentication.ClientAuthenticator', 'clause': 'handshake', 'input': inp, 'detail': f}]}
 
 
